@@ -7,6 +7,8 @@ package main
 
 import (
 	"bufio"
+	"bytes"
+	"context"
 	"crypto/sha256"
 	"encoding/binary"
 	"encoding/hex"
@@ -15,9 +17,10 @@ import (
 	"math"
 	"math/rand"
 	"os"
+	"os/exec"
 	"path/filepath"
-	"runtime"
 	"strings"
+	"syscall"
 	"time"
 
 	"github.com/lidofinance/dc4bc/fsm/types/requests"
@@ -99,6 +102,55 @@ func safeTasks(ts []requests.SigningTask) (ob string) {
 		parts[i] = rMsgGo(m)
 	}
 	return "ok (" + strings.Join(parts, ";") + ")"
+}
+
+// expandInChild runs one expansion in a child process; died is non-empty when the child did not live to answer
+func expandInChild(ts []requests.SigningTask) (ob string, died string) {
+	bz, err := json.Marshal(ts)
+	if err != nil {
+		return "err", ""
+	}
+	self, err := os.Executable()
+	if err != nil {
+		return safeTasks(ts), ""
+	}
+	ctx, cancel := context.WithTimeout(context.Background(), 10*time.Minute)
+	defer cancel()
+	cmd := exec.CommandContext(ctx, self, "expandtasks", string(bz))
+	var stderr bytes.Buffer
+	cmd.Stderr = &stderr
+	out, err := cmd.Output()
+	line := strings.TrimSpace(string(out))
+	if err == nil && (line == "err" || line == "panic" || strings.HasPrefix(line, "ok ")) {
+		return line, ""
+	}
+	why := "no answer"
+	if ctx.Err() != nil {
+		why = "no answer within ten minutes"
+	}
+	for _, l := range strings.Split(stderr.String(), "\n") {
+		if strings.HasPrefix(l, "fatal error") || strings.HasPrefix(l, "panic:") || strings.Contains(l, "out of memory") || strings.Contains(l, "cannot allocate") {
+			why = strings.TrimSpace(l)
+			break
+		}
+	}
+	return "panic", fmt.Sprintf("%s (%v)", why, err)
+}
+
+// runExpandTasks: the child side of expandInChild
+func runExpandTasks(arg string) {
+	// 12 GB of address space: the built-in list has 18632 entries; an expansion that needs more is not going to stop
+	var lim syscall.Rlimit
+	if syscall.Getrlimit(syscall.RLIMIT_AS, &lim) == nil {
+		lim.Cur = 12 << 30
+		syscall.Setrlimit(syscall.RLIMIT_AS, &lim)
+	}
+	var ts []requests.SigningTask
+	if err := json.Unmarshal([]byte(arg), &ts); err != nil {
+		fmt.Println("err")
+		return
+	}
+	fmt.Println(safeTasks(ts))
 }
 
 func runSszDiff(outDir string, seed int64, tier string) {
@@ -316,31 +368,13 @@ func runSszDiff(outDir string, seed int64, tier string) {
 				}
 				toks = append(toks, hs(t.MessageID), hs(t.File), pl, fmt.Sprint(t.RangeStart), fmt.Sprint(t.RangeEnd))
 			}
-			// a range that is not refused where it leaves the list would be expanded until memory runs out (which ends the
-			// process as surely as a panic). The built-in list has 18632 entries, so a legitimate expansion stays far below
-			// 8 GB of live heap and far below ten minutes; beyond either the run stops and keeps what was observed so far.
-			obc := make(chan string, 1)
-			go func() { obc <- safeTasks(ts) }()
-			var ob string
-			started := time.Now()
-			for waiting := true; waiting; {
-				select {
-				case ob = <-obc:
-					waiting = false
-				case <-time.After(200 * time.Millisecond):
-					var ms runtime.MemStats
-					runtime.ReadMemStats(&ms)
-					if ms.HeapAlloc > 8<<30 || time.Since(started) > 10*time.Minute {
-						st.Monitors = append(st.Monitors, fmt.Sprintf("C18 never_panics: TasksToMessages does not return on the range [%d,%d) (heap %d MB after %.0f s): the expansion is not refused where it leaves the list", a, b, ms.HeapAlloc>>20, time.Since(started).Seconds()))
-						ops.Flush()
-						obs.Flush()
-						fo.Close()
-						fb.Close()
-						writeJSON(filepath.Join(outDir, "stats.json"), st)
-						fmt.Printf("sszdiff: ops=%d roots=%d baked=%d tasks=%d monitors=%d (stopped at a non-returning expansion)\n", st.Ops, st.Roots, st.Baked, st.Tasks, len(st.Monitors))
-						os.Exit(0)
-					}
-				}
+			// a range that is not refused where it leaves the list would be expanded until memory runs out, which ends a
+			// process as surely as a panic and cannot be caught inside it: the call runs in a child process with a capped
+			// address space and a time limit
+			ob, died := expandInChild(ts)
+			if died != "" {
+				st.Monitors = append(st.Monitors, fmt.Sprintf("C18 never_panics: TasksToMessages on the range [%d,%d) ends the process: %s", a, b, died))
+				ob = "panic"
 			}
 			if strings.HasPrefix(ob, "panic") {
 				st.Monitors = append(st.Monitors, fmt.Sprintf("C18 never_panics: TasksToMessages panicked on the range [%d,%d)", a, b))
